@@ -153,6 +153,10 @@ func (cs ClientState) UpgradeState(
 	store sdk.KVStore,
 	state exported.ConsensusState,
 ) error {
+	// as in Initialize: the keeper stores the upgraded consensus state at the new latest height, which
+	// needs its processed time (delay period check of the Verify* functions) and its iteration key
+	// (ordered iteration, pruning)
+	setConsensusMetadata(ctx, store, cs.GetLatestHeight())
 	return nil
 }
 
